@@ -31,6 +31,15 @@
 (* shapes include node infos cut after each such field; the decoder must   *)
 (* return the same message with the missing fields at their zero value.    *)
 (*                                                                         *)
+(* Frames travel through two decode paths: Decode on a byte slice and the  *)
+(* streaming FrameReader.Read (header, then payload, from an io.Reader).    *)
+(* Section "streaming frame path" transcribes both for HOSTILE HEADERS     *)
+(* (length field in {0,1,Max-1,Max,Max+1,2^31,2^32-1} x how much of header *)
+(* and payload the stream delivers before EOF): both must agree on accept  *)
+(* or reject, and the streaming path must not allocate out of proportion   *)
+(* to the bytes it was given.  The encoder side (Frame.Encode,             *)
+(* FrameWriter.Write/WriteFrame) refuses payloads above the maximum.       *)
+(*                                                                         *)
 (* Deviations (constant Dev):                                              *)
 (*   DevQueuedOffset33     DecodeQueuedState advances 33+16*|SeenBy| past  *)
 (*                         the sleep command instead of its real size      *)
@@ -43,6 +52,9 @@
 (*   DevNoLegacyTail       the node-info decoder insists on the fields     *)
 (*                         appended in later versions (legacy encodings    *)
 (*                         rejected); not observed, guards the legacy path *)
+(*   DevStreamNoMaxCheck   FrameReader.Read takes the length of the header *)
+(*                         without comparing it with MaxPayloadSize and    *)
+(*                         allocates that many bytes (up to 4 GiB)         *)
 (***************************************************************************)
 EXTENDS Integers, Sequences, FiniteSets, TLC, Json
 
@@ -51,7 +63,7 @@ CONSTANTS Types,   \* message types whose shapes are enumerated
           Emit,    \* TRUE: print VEC / HOSTILE records
           Wide     \* TRUE: more boundary values and pairs of varied fields (thorough tier)
 
-DevNames == {"DevQueuedOffset33", "DevAckMinLen44", "DevPreallocFromCount", "DevNoLegacyTail"}
+DevNames == {"DevQueuedOffset33", "DevAckMinLen44", "DevPreallocFromCount", "DevNoLegacyTail", "DevStreamNoMaxCheck"}
 ASSUME Dev \subseteq DevNames
 
 (* ------------------------------------------------------------------ *)
@@ -475,12 +487,49 @@ PreAlloc(h) ==
 ASSUME 255 * 400 < 1048576
 
 (* ------------------------------------------------------------------ *)
+(* Streaming frame path (FrameReader.Read / Decode / DecodeHeader /    *)
+(* Frame.Encode / FrameWriter.Write, WriteFrame)                       *)
+(* ------------------------------------------------------------------ *)
+HeaderSize == 14
+\* classes of the 32-bit length field; b = the value when a stream can deliver that many bytes, -1 beyond;
+\* kib = the value in KiB rounded down (TLC integers are 32 bit)
+Claims == { [c |-> "0", b |-> 0, kib |-> 0], [c |-> "1", b |-> 1, kib |-> 0],
+            [c |-> "Max-1", b |-> MaxPayload - 1, kib |-> 15], [c |-> "Max", b |-> MaxPayload, kib |-> 16],
+            [c |-> "Max+1", b |-> MaxPayload + 1, kib |-> 16],
+            [c |-> "2^31", b |-> -1, kib |-> 2097152], [c |-> "2^32-1", b |-> -1, kib |-> 4194303] }
+TooLarge(cl) == cl.b < 0 \/ cl.b > MaxPayload
+\* a byte stream offered to a frame decoder: `hdr` header bytes arrive (14 = complete header), its length field
+\* claims cl, then `avail` payload bytes arrive before EOF
+Streams == [claim : Claims, hdr : {0, 13, HeaderSize}, avail : {"none", "one", "short", "exact", "extra"}]
+Deliverable(cl) == IF cl.b < 0 THEN MaxPayload + 2 ELSE cl.b
+AvailBytes(h) ==
+  IF h.hdr < HeaderSize THEN 0
+  ELSE CASE h.avail = "none"  -> 0
+         [] h.avail = "one"   -> 1
+         [] h.avail = "short" -> IF Deliverable(h.claim) = 0 THEN 0 ELSE Deliverable(h.claim) - 1
+         [] h.avail = "exact" -> Deliverable(h.claim)
+         [] h.avail = "extra" -> Deliverable(h.claim) + 3
+Enough(h) == h.claim.b >= 0 /\ AvailBytes(h) >= h.claim.b
+\* Decode(buf): header complete, length within the maximum, buffer holds the payload (trailing bytes ignored)
+SliceDecode(h) == IF h.hdr = HeaderSize /\ ~TooLarge(h.claim) /\ Enough(h) THEN "ok" ELSE "err"
+\* FrameReader.Read: io.ReadFull(header); DecodeHeader (length check); make([]byte, length); io.ReadFull(payload)
+StreamRead(h) ==
+  IF h.hdr < HeaderSize THEN [res |-> "err", kib |-> 0]
+  ELSE IF TooLarge(h.claim) /\ "DevStreamNoMaxCheck" \notin Dev THEN [res |-> "err", kib |-> 0]
+  ELSE [res |-> IF Enough(h) THEN "ok" ELSE "err", kib |-> h.claim.kib]
+\* 1 MiB + 64 * bytes delivered, in KiB (rounded up)
+StreamBoundKiB(h) == 1024 + (64 * (h.hdr + AvailBytes(h))) \div 1024 + 1
+\* Frame.Encode / FrameWriter.Write / WriteFrame accept a payload iff it is within the maximum
+EncodeOK(cl) == ~TooLarge(cl)
+
+(* ------------------------------------------------------------------ *)
 (* The enumeration as a one-step state machine                         *)
 (* ------------------------------------------------------------------ *)
 VARIABLE vec
 vars == << vec >>
 
-Init == \/ \E h \in Hostile : "QueuedState" \in Types /\ vec = [t |-> "hostile", ty |-> "QueuedState", sk |-> h]
+Init == \/ \E h \in Streams : "Frame" \in Types /\ vec = [t |-> "stream", ty |-> "Frame", sk |-> h]
+        \/ \E h \in Hostile : "QueuedState" \in Types /\ vec = [t |-> "hostile", ty |-> "QueuedState", sk |-> h]
         \/ \E ty \in Types : \E sk \in ShapesOf(ty) : vec = [t |-> "shape", ty |-> ty, sk |-> sk]
 Next == UNCHANGED vec
 Spec == Init /\ [][Next]_vars
@@ -516,12 +565,23 @@ RoundTrip == vec.t = "shape" => Same(Parse(vec.ty, Lay(vec.ty, Msg)), Msg)
 \* C05, last sentence, on the model
 AllocProportional == vec.t = "hostile" => PreAlloc(vec.sk) <= AllocBound(vec.sk.nbytes)
 
+\* C05 on the model, both frame decode paths
+StreamAgrees == vec.t = "stream" => StreamRead(vec.sk).res = SliceDecode(vec.sk)
+StreamAllocBounded == vec.t = "stream" => StreamRead(vec.sk).kib <= StreamBoundKiB(vec.sk)
+StreamRecord ==
+  PrintT("STREAM " \o ToJson([h |-> vec.sk, availbytes |-> AvailBytes(vec.sk), slice |-> SliceDecode(vec.sk),
+                               stream |-> StreamRead(vec.sk).res, allockib |-> StreamRead(vec.sk).kib,
+                               boundkib |-> StreamBoundKiB(vec.sk), encodeok |-> EncodeOK(vec.sk.claim)]))
+
 \* emission only (always TRUE): used with Dev = {d} to obtain the deviating decoder's outcome for every shape
 EmitVec ==
-  IF vec.t = "shape" THEN LET m == Msg  L == Lay(vec.ty, m) IN VecRecord(L, Parse(vec.ty, L), m) ELSE HostileRecord
+  IF vec.t = "shape" THEN LET m == Msg  L == Lay(vec.ty, m) IN VecRecord(L, Parse(vec.ty, L), m)
+  ELSE IF vec.t = "stream" THEN StreamRecord ELSE HostileRecord
 \* check and emission with one evaluation of layout and parse
 RoundTripEmit ==
   vec.t = "shape" => LET m == Msg  L == Lay(vec.ty, m)  p == Parse(vec.ty, L) IN
                      (Emit => VecRecord(L, p, m)) /\ Same(p, m)
 AllocEmit == vec.t = "hostile" => (Emit => HostileRecord) /\ PreAlloc(vec.sk) <= AllocBound(vec.sk.nbytes)
+StreamEmit == vec.t = "stream" => (Emit => StreamRecord) /\ StreamRead(vec.sk).res = SliceDecode(vec.sk)
+                                  /\ StreamRead(vec.sk).kib <= StreamBoundKiB(vec.sk)
 =============================================================================
